@@ -16,7 +16,6 @@ import (
 	"verifharness/internal/rng"
 
 	"github.com/wolimst/lib-secs2-hsms-go/pkg/ast"
-	"github.com/wolimst/lib-secs2-hsms-go/pkg/parser/hsms"
 )
 
 // C02 — encoded bytes conform to SEMI E5 / E37 (reference encoder oracle).
@@ -124,7 +123,7 @@ func c02Decoded(c *ctx, cs c02Case) {
 	var ok bool
 	o := real.Try(func() {
 		var m ast.HSMSMessage
-		m, ok = hsms.Parse(wire)
+		m, ok, _ = hsmsParse(wire) // decodes from its own buffer and overwrites it before the message is encoded (round 11)
 		if ok {
 			got = m.ToBytes()
 			if dm, is := m.(*ast.DataMessage); is {
